@@ -264,7 +264,28 @@ var c03NumTokens = []string{"0", "-0", "00", "1e3", "0x10", "9223372036854775808
 func c03Mutate(rng *rand.Rand, data []byte) []byte {
 	lines := strings.Split(string(data), "\n")
 	pickLine := func() int { return rng.Intn(len(lines)) }
-	switch rng.Intn(16) {
+	switch rng.Intn(18) {
+	case 16, 17: // stray bytes glued to the end (or start) of a field or of a ';'-separated item: bytes that are white space
+		// only when read alone (0x85, 0xA0), control characters, NUL
+		i := pickLine()
+		f := strings.Split(lines[i], "\t")
+		k := rng.Intn(len(f))
+		if len(f) > 8 && rng.Intn(2) == 0 {
+			k = 8 // the GFF attribute column
+		}
+		items := strings.Split(f[k], ";")
+		j := rng.Intn(len(items))
+		stray := string([]byte{[]byte{0x85, 0xa0, 0x85, 0xa0, 0x0b, 0x0c, 0x1c, 0x1f, 0x00, 0xc2}[rng.Intn(10)]})
+		if rng.Intn(3) == 0 {
+			stray = " " + stray
+		}
+		if rng.Intn(4) == 0 {
+			items[j] = stray + items[j]
+		} else {
+			items[j] += stray
+		}
+		f[k] = strings.Join(items, ";")
+		lines[i] = strings.Join(f, "\t")
 	case 14, 15: // a field becomes one arbitrary byte (every value 1..255 except the separators), or a few of them
 		i := pickLine()
 		f := strings.Split(lines[i], "\t")
@@ -530,6 +551,20 @@ var c03Catalogue = func() []c03Cat {
 	}})
 	cat = append(cat, c03Cat{"fastq", "fastq + line not repeating the header", func(rng *rand.Rand) string {
 		return "@r1 d\nacgt\n+r2\nIIII"
+	}})
+	cat = append(cat, c03Cat{"fastq", "fastq + line naming another read of the same length", func(rng *rand.Rand) string {
+		// same length as the @ line, sequence shorter or longer than it: whatever buffers the reader reuses, the two
+		// identifiers differ
+		n := 1 + rng.Intn(30)
+		id := make([]byte, n)
+		for i := range id {
+			id[i] = byte('a' + rng.Intn(26))
+		}
+		other := append([]byte(nil), id...)
+		p := rng.Intn(n)
+		other[p] = byte('a' + (int(other[p]-'a')+1+rng.Intn(25))%26)
+		l := 1 + rng.Intn(2*n+8)
+		return "@" + string(id) + "\n" + strings.Repeat("a", l) + "\n+" + string(other) + "\n" + strings.Repeat("I", l)
 	}})
 	cat = append(cat, c03Cat{"fasta", "fasta sequence line before any header", func(rng *rand.Rand) string {
 		return "acgtacgt"
